@@ -240,6 +240,10 @@ class Broker(object):
                 conn.version = rc.V31 if p.get("level") == 3 else rc.V311
                 if p.get("clean"):
                     sess.reset()
+                elif len(self.connects[conn.idx]) > 1:
+                    # a second CONNECT on the same network connection (after a refusing CONNACK,
+                    # I2): what the client sent earlier on this connection is still owed an answer
+                    pass
                 else:
                     # a new network connection: acknowledgements owed on the old one
                     # are forgotten; the client re-sends what it still wants answered
